@@ -7,6 +7,7 @@ import (
 	"go/types"
 	"sort"
 	"strings"
+	"time"
 
 	"golang.org/x/tools/go/packages"
 )
@@ -131,6 +132,14 @@ type Obligation struct {
 	MustFail bool // canary: expected NOT to be provable
 	FailText string
 	FailStatus string
+	Run      func(ob *Obligation, timeout time.Duration) // non-SMT-path obligations (RegLan, effects, bounded)
+	Bounded  bool
+	Domain   string
+	Cases    int
+	Witness  string
+	WitnessNote string
+	ReplayTest string
+	ReplayPkg  string
 }
 
 // FnCtx: verification context of one function under contract.
@@ -172,6 +181,7 @@ type FnCtx struct {
 	nloops     int
 	specMode   *SpecFunc
 	entryMeasure []string
+	regexUsed  map[string]bool
 }
 
 // nameScope resolves identifiers of a contract clause.
